@@ -452,7 +452,10 @@ def verify_one(args):
         # 5x / 20x the budget; MANY open conditions mean the function really changed - reported without that wait
         still = [i for i, x in enumerate(raw) if not x[1] and not tasks[i][0].endswith(":cover-false")
                  and not str(x[4]).startswith("sat")]
-        if still and len(still) <= 4 and not fast:
+        # (how many is "a few": at least 4, at most 16, about one in twenty of the function's conditions - the merges
+        # of C07 have ~600 and regularly need the long budget for a handful, more under load)
+        few = max(4, min(16, len(tasks) // 20))
+        if still and len(still) <= few and not fast:
             dtasks = [tasks[i] + ("deep",) for i in still]
             if mp is not None:
                 again = robust_map(_solve_vc, dtasks, inner, mp,
